@@ -232,8 +232,19 @@ def builtin_tables(ctx, rep, prop="C05"):
     clos = facts.closures_of(ck)
     okm = False
     det = None
-    for c in clos:
-        cp = Machine(facts, opaque_fns=["ast::Aidl::get_key", "ast::Item::get_kind"], pure_fns=["ast::Aidl::get_key", "ast::Item::get_kind"]).run(c, [Ref(Cell(AdtVal("closure:" + c, None, {})), True), sym_ref("f")])
+    # the entry builder is a closure of collect_item_keys or a function of the crate handed to an adaptor by name (`.map(item_key_entry)`)
+    named = []
+    for b in body["blocks"]:
+        t = b["term"]
+        if t["k"] == "call":
+            for a in t["args"]:
+                if a["k"] == "const" and isinstance(a["c"].get("fn"), dict):
+                    nm = a["c"]["fn"].get("resolved") or a["c"]["fn"]["def"]
+                    if nm in facts.fns and nm not in named:
+                        named.append(nm)
+    for c in list(clos) + named:
+        cargs = [sym_ref("f")] if c in named else [Ref(Cell(AdtVal("closure:" + c, None, {})), True), sym_ref("f")]
+        cp = Machine(facts, opaque_fns=["ast::Aidl::get_key", "ast::Item::get_kind"], pure_fns=["ast::Aidl::get_key", "ast::Item::get_kind"]).run(c, cargs)
         if len(cp) == 1 and isinstance(cp[0].ret, AdtVal) and cp[0].ret.ty == "tuple" and len(cp[0].ret.fields) == 2:
             det = [fmt_label(lab(cp[0].ret.fields[i].val)) for i in (0, 1)]
             okm = det == ["ast::Aidl::get_key(f)", "ast::Item::get_kind(f.item)"]
